@@ -197,6 +197,9 @@ def mk_node(drive, transport, nid=3, with_mode=False):
         rp.cob_id, rp.enabled = 0x200 + nid, False
         rp.add_variable(0x6040, 0)
         rp.add_variable(0x6060, 0)
+        tp = node.tpdo[1]          # the statusword likewise, in a TPDO that is switched off
+        tp.cob_id, tp.enabled = 0x180 + nid, False
+        tp.add_variable(0x6041, 0)
         node.setup_pdos(upload=False)
     if transport == "pdo":
         rp, tp = node.rpdo[1], node.tpdo[1]
